@@ -195,6 +195,22 @@ PROPERTIES = {
                     'a peer that claims one name in the TLS hello while presenting a certificate for another: decided inside rustls / webpki; covered only through the verifier twins and cert_corpus'],
         assumptions=['the executable webpki model of unit enum_certs (stated in its docstring)'],
     ),
+    'C16': dict(
+        units=['routing', 'enum_router'],
+        canaries=['routing'],
+        extra=[validate.routing_table, validate.hostile_requests],
+        scope='GLUE AROUND THE TRIE. Proved (Verus, unit routing): `impl Service for Router`::call sends a request to exactly the service stored for the id of the pattern the trie selects for its route, '
+              'and to the NotFound fallback when the trie selects none; the request is handed over unchanged to exactly one service; routing never changes the router and - as long as every id '
+              'the matcher holds has a route - never panics on any route string; RouteMatcher::at is the trie\'s answer; a Route calls (a clone of) its own service once; NotFound answers NotFound; '
+              'Router::new is empty with the NotFound fallback. BOUNDED (unit enum_router: the real text of Router::{new, route, add_rpc_service, merge, route_layer, call}, RouteMatcher, RouteId::next, '
+              'Route, NotFound, try_downcast compiled natively on a model of matchit): every history of 3 (thorough: 4) operations x 16 route strings against an oracle written from the statement.',
+        unverified=['which pattern matches which route string: the third-party matchit trie (uninterpreted in Verus, modelled in enum_router; the execution check routing_table runs the real trie on a table of patterns x route strings)',
+                    'Router::{route, add_rpc_service, merge, route_layer}, RouteMatcher::insert, RouteId::next, try_downcast (dyn Any downcasts, iterator pipelines, format!, &str inspection): bounded enumeration and execution only; '
+                    'the invariant "every id in the matcher has a route" that Router::call relies on is therefore a precondition in the proof, established only by the bounded and executed checks',
+                    'patterns with :name parameters, and the exact treatment of an empty wildcard tail (`/s/` for `/s/*rest`): the statement does not say; the oracle accepts either answer for exactly that case',
+                    'that a route-level tower::Layer behaves as a wrapper (tower)'],
+        assumptions=['the executable matchit model of unit enum_router (stated in its docstring); BTreeMap as a map; BoxCloneService / Oneshot call the service they wrap'],
+    ),
     'C02': dict(
         units=['wire', 'kani_wire', 'crypto', 'timeout'],
         canaries=['wire', 'streams', 'crypto', 'timeout'],
@@ -217,7 +233,6 @@ PENDING = 'within reach of the technique (DESIGN.md section 5) but its unit is n
 NOT_APPLICABLE = {
      'C08': 'shutdown: task joins, channel closure, socket release and runtime teardown at every point in time; no function-level contract expresses it and neither verifier models tokio tasks or Drop ordering (DESIGN.md section 6)',
     'C12': 'cancellation: when a remote handler is dropped relative to a caller\'s cancellation and QUIC stream credit return are scheduling + quinn flow control; nothing in reach decides a sentence of it (section 6)',
-    'C16': 'routing: matching is the third-party matchit trie; router construction uses dyn Any downcasts, boxed trait objects, BTreeMap: outside both verifiers (section 6)',
     'C17': 'generated clients: quantifies over programs built with quote!/format! token streams; no verifier here reasons about proc-macro output (section 6)',
     'C18': 'in-flight limit: the bound is the tokio semaphore under concurrency and implicit-Drop timing of permits; Kani has no threads, Verus cannot observe drop points (section 6)',
     'C19': 'rate limit: the admitted-count bound is governor\'s GCRA over real time; only one sequential clause is in reach, which would leave the property undecided (section 6)',
